@@ -730,8 +730,8 @@ impl Gen {
                 OW_BUILDER => {
                     let kind = [
                         BKind::Sized, BKind::Swh, BKind::Swh, BKind::SwhTokPod, BKind::SwhTokPod, BKind::SwhPodTok, BKind::Slice, BKind::CopySlice, BKind::Str, BKind::StaticSwh,
-                        BKind::SliceZst, BKind::SwhZst, BKind::SwhZst, BKind::SwhMeta, BKind::SwhRaw, BKind::SizedRaw, BKind::StrRaw,
-                    ][self.rng.below(17)];
+                        BKind::SliceZst, BKind::SwhZst, BKind::SwhZst, BKind::SwhMeta, BKind::SwhRaw, BKind::SizedRaw, BKind::StrRaw, BKind::TmToks,
+                    ][self.rng.below(18)];
                     let n = self.rng.below(9) as u8;
                     let stage = match self.rng.below(8) {
                         0 => BStage::AbandonNew,
@@ -747,11 +747,11 @@ impl Gen {
                         (BKind::SliceZst, BStage::WrongLen(_)) => BStage::Complete,
                         (BKind::SwhZst | BKind::SwhMeta, BStage::WrongLen(_)) => BStage::Complete,
                         (BKind::SwhRaw, BStage::PanicAt(_) | BStage::WrongLen(_)) => BStage::Complete,
-                        (BKind::SizedRaw | BKind::StrRaw, BStage::PanicAt(_) | BStage::WrongLen(_) | BStage::AbandonAfterHeader) => BStage::Complete,
+                        (BKind::SizedRaw | BKind::StrRaw | BKind::TmToks, BStage::PanicAt(_) | BStage::WrongLen(_) | BStage::AbandonAfterHeader) => BStage::Complete,
                         (_, s) => s,
                     };
                     let first = v.sh.next_id;
-                    if matches!(kind, BKind::Swh | BKind::SwhZst | BKind::SliceZst | BKind::SwhMeta | BKind::SwhRaw | BKind::SizedRaw) && stage == BStage::Complete && self.rng.chance(2, 3) {
+                    if matches!(kind, BKind::Swh | BKind::SwhZst | BKind::SliceZst | BKind::SwhMeta | BKind::SwhRaw | BKind::SizedRaw | BKind::TmToks) && stage == BStage::Complete && self.rng.chance(2, 3) {
                         // link the finished object so that it is later collected like any other
                         if let Some((holder, hk, ns)) = self.pick_strong_holder(v) {
                             let slot = self.rng.below(ns);
